@@ -160,16 +160,28 @@ def parse_body(el):
 
 def load_tree(root):
     """Read every protocol.xml under `root` (any enumeration order gives the same Spec)."""
-    spec = Spec()
     files = []
     for d, _, fs in os.walk(root):
         if "protocol.xml" in fs:
             files.append(os.path.join(d, "protocol.xml"))
     files.sort()
+    docs = {}
     for path in files:
         rel = os.path.dirname(os.path.relpath(path, root)).replace(os.sep, "/")
         rel = "" if rel == "." else rel
-        tree = ET.parse(path).getroot()
+        with open(path, encoding="utf-8") as f:
+            docs[rel] = f.read()
+    return load_strings(docs)
+
+
+def load_strings(docs):
+    """docs: relative directory ('' for the root) -> protocol.xml text"""
+    spec = Spec()
+    for rel in sorted(docs):
+        try:
+            tree = ET.fromstring(docs[rel])
+        except ET.ParseError as e:
+            raise SpecError(f"XML parse error: {e}")
         if tree.tag != "protocol":
             raise SpecError("root element is not <protocol>")
         spec.files.append(rel)
